@@ -59,7 +59,7 @@ def _name(r, used, prefix=""):
             return n
 
 
-def gen_world(r, nfiles=None, as_string=False, builtin=None):
+def gen_world(r, nfiles=None, as_string=False, builtin=None, refless=False):
     """Valid world: files[0] is the main model.  Returns dict(files=[File], string=bool, defs={file: [names]}).
     Options drawn here: a builtin model (metamodel builtin_models: an extra, separately loaded file whose
     definitions every model can reference; it is the LAST entry of files and never imported), an explicit
@@ -92,7 +92,7 @@ def gen_world(r, nfiles=None, as_string=False, builtin=None):
         def mk_items(depth, n):
             out = []
             for _ in range(n):
-                k = r.weighted([("def", 5), ("box", 2 if depth < 2 else 0), ("use", 3), ("uses", 1), ("rr", 1)])
+                k = r.weighted([("def", 5), ("box", 2 if depth < 2 else 0)] + ([] if refless else [("use", 3), ("uses", 1), ("rr", 1)]))
                 if k == "def":
                     nm = _name(r, used)
                     names.append(nm)
@@ -418,7 +418,7 @@ def world_from_files(files, as_string):
         f.ix, f.name, f.raw = i, name, raw
         f.seen = raw if as_string else universal_newlines(raw)
         out.append(f)
-    return {"files": out, "string": as_string, "builtin": False, "str_file_name": None, "user_classes": False}
+    return {"files": out, "string": as_string, "builtin": False, "str_file_name": None, "user_classes": False, "corpus": True}
 
 
 def corpus_files(pid):
